@@ -135,6 +135,7 @@ def projects(draw, max_steps=9, allow_always=True, allow_clash=False):
                 step['outs'] = ['gen/' + o for o in step['outs']]
             step['files'] = pick(file_refs('cdhb'), 0, 3)
             step['two_lines'] = draw(st.integers(0, 2)) == 0
+            step['cmd_refs'] = draw(st.integers(0, 2)) == 0
             step['always'] = allow_always and draw(st.integers(
                 0, 7 if nout == 1 else 3)) == 0
         elif kind == 'copy':
@@ -486,14 +487,24 @@ def script(model):
                 ['--vf-out=' + o for o in st_['outs']]
             if st_.get('env'):
                 extra += ', environment={!r}'.format(st_['env'])
-            if st_.get('two_lines'):
+            if st_.get('cmd_refs') and st_['files']:
+                # the inputs are named inside the command (as file objects)
+                # instead of files=; a plain shell line comes first
+                refs = ', '.join(
+                    'generic_file({!r})'.format(r_[1]) if r_[0] == 'src'
+                    else _ref_expr(model, r_) for r_ in st_['files'])
+                cmdkw = "cmds=['true', {!r} + [{}]]".format(cmd, refs)
+                filekw = ''
+            elif st_.get('two_lines'):
                 # a step of two command lines (both get the environment)
                 cmdkw = 'cmds={!r}'.format(
                     [cmd, ['rec', 'AUX:{}'.format(st_['id'])]])
+                filekw = ', files=' + files
             else:
                 cmdkw = 'cmd={!r}'.format(cmd)
-            L.append('{} = build_step({!r}, {}, files={}{}{})'.format(
-                v, outs, cmdkw, files, extra,
+                filekw = ', files=' + files
+            L.append('{} = build_step({!r}, {}{}{}{})'.format(
+                v, outs, cmdkw, filekw, extra,
                 ', always_outdated=True' if st_['always'] else ''))
         elif kind == 'copy':
             if st_.get('mode', 'copy') != 'copy':
